@@ -623,6 +623,17 @@ def new_sequence(rng):
     return {"lens": [la, lb, lc, ld], "init": rnd_bytes(rng, la + lb + lc + ld).hex(), "ops": []}
 
 
+def translators(ctx):
+    """Generated/BufferExprs.lean (and Generated/IndexExprs.lean, which Model/Buffer.lean imports through
+    Model/Index.lean): every bound test, clamp and length computation the model uses, re-extracted from
+    minibuffer.h and _cffi_backend.c (translate/c19_exprs.py, translate/c16_exprs.py)."""
+    import os
+    sys.path.insert(0, os.path.join(common.VERIF, "translate"))
+    import c16_exprs
+    import c19_exprs
+    return [c16_exprs.translator, c19_exprs.translator]
+
+
 # ------------------------------------------------------------------ running
 
 def nontrivial_key(op, real):
